@@ -337,6 +337,8 @@ def build_case(chk, rng, it):
     if it % 8 == 5 and not big_n:
         # a coefficient function that returns a Python int on a part of the domain (finding F24)
         j = it // 8 % 4
+        # (the hinge point is put on an interior break point of the radial grid once the grid is known - `place_hinge` -: at a point
+        # within rounding of a quadrature point the value of such a function is 100 % sensitive to the rounding of the point itself)
         spec = ('hinge', [0, 1, -1, 2][j], rrange[0] + 0.37 * (rrange[1] - rrange[0]), [0.75, -0.5, 0.6, 1.5][j] / (rrange[1] - rrange[0]))
         coefs[['drFactor', 'rFactor', 'ddThetaFactor', 'rhoFactor'][j]] = (spec, lam(*spec))
     grids = [(1,)] + [(p,) for p in range(2, 7) if p <= N] + [(p, q) for p in range(1, 5) for q in range(2, 4)
@@ -524,6 +526,14 @@ def one_case(chk, drv, it, stats):
     rs0 = S['bsplines'][0]
     rs = BSplines(make_knots(rs0.breaks, 3, False), 3, False, False) if rs0.cubic_uniform else rs0
     nodes = S['eta'][0]
+    for k_, (spec_, _) in list(cs['coefs'].items()):
+        if spec_[0] == 'hinge':
+            # place the hinge on an interior break point (half a cell away from the nearest quadrature point of an odd rule, at least
+            # 3 % of a cell for the rules used); a single cell has no interior break point: a constant then
+            br_ = np.asarray(rs.breaks, float)
+            spec_ = ('hinge', spec_[1], float(br_[len(br_) // 2]), spec_[3]) if len(br_) >= 3 else ('const', float(spec_[1]))
+            cs['coefs'][k_] = (spec_, lam(*spec_))
+    desc = case_desc(cs)
     fns = coef_callables(cs['coefs'])
     nprng = np.random.RandomState(cs['seed'])
     mv = mvals(N)
